@@ -109,6 +109,7 @@ def _make_proc_body(i, awaits, oc, outs):
     def begin(self, a, kw):
         call = (i, tuple(a), tuple(sorted((int(k[1:]), v) for k, v in kw.items())))
         self._trace.append(call)
+        sorted(self.inputs.keys())      # every step consults its (possibly empty) parsed inputs, which must have been restored
         self.out(f't{i}', [list(a), sorted([k, v] for k, v in kw.items())])
         for port, value in outs:
             self.out(port, copy.deepcopy(value))
@@ -128,7 +129,7 @@ def _make_proc_body(i, awaits, oc, outs):
 
 
 def build_proc(prog):
-    key = 'proc' + repr(sorted(prog['fns'].items())) + repr(sorted((prog.get('outs') or {}).items()))
+    key = 'proc' + repr(sorted(prog['fns'].items())) + repr(sorted((prog.get('outs') or {}).items())) + str(bool(prog.get('bare')))
     if key in _CACHE:
         return _CACHE[key]
     ns = {}
@@ -138,10 +139,14 @@ def build_proc(prog):
 
     def define(cls, spec):
         super(klass, cls).define(spec)
-        spec.input('a', default=5)
+        if prog.get('bare'):
+            spec.input('a', required=False)      # no defaults at all: a process started without inputs has EMPTY parsed inputs
+        else:
+            spec.input('a', default=5)
         spec.input('b', required=False)
         spec.input_namespace('ns', dynamic=True, required=False)
         spec.outputs.dynamic = True
+        spec.output('typed_int', valid_type=int, required=False)
     ns['define'] = classmethod(define)
 
     def __init__(self, *a, **kw):
@@ -629,4 +634,10 @@ PROC_CORPUS = {
                  'outs': {0: [('w', 0)], 2: [('w', 2)]}},
     'Raises': {'kind': 'proc', 'nfut': 0, 'fns': {0: (1, ('cont', 1, [1], {})), 1: (0, ('raise', 2))}, 'outs': {0: [('o', 1)]}},
     'Killed': {'kind': 'proc', 'nfut': 0, 'fns': {0: (0, ('wait', 1)), 1: (0, ('kill',))}, 'outs': {}},
+    # no inputs given and no defaults declared: the (empty) parsed inputs must survive a checkpoint
+    'Bare': {'kind': 'proc', 'nfut': 0, 'bare': True, 'fns': {0: (0, ('cont', 1, [1], {})), 1: (1, ('wait', 2)), 2: (0, ('stop', 3, True))},
+             'outs': {0: [('o', 1)]}},
+    # a step emits a value its output port rejects: the process excepts with the ValueError raised by out()
+    'BadOut': {'kind': 'proc', 'nfut': 0, 'fns': {0: (0, ('cont', 1, [], {})), 1: (1, ('stop', 1, True))},
+               'outs': {0: [('o', 1)], 1: [('typed_int', 'seven')]}},
 }
